@@ -148,6 +148,8 @@ def _step(cfg):
                 cur = z3.If(z3.And(wdone[j], waddr[j] == r), _merge(rows[r], wdata[j], wmask[j], w, gran), cur)
             after.append(cur)
         seen = after if transparent else rows      # what a read performed in this cycle observes
+        for j in range(nw):
+            ob.append((f"write{j} is total: it runs whenever it is called (an ideal memory never refuses a write)", wdone[j] == o.en(f"wr{j}")))
         newpend = []
         for i in range(nr):
             qen, qdone, qaddr = o.en(f"req{i}"), o.done(f"req{i}"), o.arg(f"req{i}", "addr")
